@@ -37,6 +37,7 @@ func main() {
 	replay := flag.String("replay", "", "re-run the rule instance recorded in a violation report")
 	list := flag.Bool("list", false, "list properties")
 	quiet := flag.Bool("q", false, "do not print per-rule summary")
+	dump := flag.Bool("all", false, "print every obligation")
 	flag.Parse()
 
 	if *list {
@@ -91,6 +92,7 @@ func main() {
 	l, err := loadRepo(*repo, nil)
 	c := newCtx(prop, tier, l, *verif)
 	c.quiet = *quiet
+	c.dump = *dump
 	if s, e := strconv.Atoi(os.Getenv("VERIF_SEED")); e == nil {
 		c.Seed = s
 	}
